@@ -77,6 +77,9 @@ HEAD2, JUNK, FOREIGN = 200, 300, (200, 399)
 MEMBERS = {
     10: URIRef("http://e/a"), 11: BNode("m1"), 12: Literal(0), 13: Literal(""), 14: Literal(False),
     15: Literal("x"), 16: Literal(1), 17: Literal("1"), 18: Literal("0"), 19: Literal("", lang="en"),
+    # round h: members whose n3() needs escapes / has blanks, quotes, a fragment, a region subtag
+    20: Literal('a "q" \\ b'), 21: Literal("tab\there\rcr ^^<x> @en"), 22: Literal("x y", lang="en-GB"),
+    23: URIRef("http://e/a#frag?x=1&y=(1)"),
 }
 FALSY = [12, 13, 14]
 OTHER = {5: URIRef("http://e/p"), 6: RDF.type, 7: URIRef("http://e/s")}
@@ -488,7 +491,16 @@ def _second(g, T, rev, fset, sec, f0, viol, where, stats):
     if sec["share"] is not None and (k != "ok" or [rev.get(x, 999) for x in v][:len(sec["items"])] != sec["items"]):
         viol.append(f"second: {where}: the private prefix of the tail-sharing collection reads {_show(k, v, rev)}, "
                     f"it was {sec['items']}")
-    return f"L2={_show(k, v, rev)} N2={_show(k2, n, rev)} F2=" + (";".join(".".join(map(str, t)) for t in ft) or "-")
+    g2 = []
+    for i in (0, -1):
+        ki, vi = _call(lambda i=i: c2[i])
+        g2.append(_show(ki, vi, rev))
+        if sec["share"] is None and g2[-1] != str(sec["items"][i]):
+            viol.append(f"second: {where}: c2[{i}] of a disjoint second collection gives {g2[-1]}, it was {sec['items'][i]}")
+    if sec["share"] is None and (k2 != "ok" or n != len(sec["items"])):
+        viol.append(f"second: {where}: len of a disjoint second collection gives {_show(k2, n, rev)}")
+    return (f"L2={_show(k, v, rev)} N2={_show(k2, n, rev)} G2={';'.join(g2)} F2="
+            + (";".join(".".join(map(str, t)) for t in ft) or "-"))
 
 
 def _read_n3_list(txt):
@@ -527,7 +539,7 @@ def _ext(c, g, head, T, rev, l, viol, where, seen, stats):
     k, txt = _call(lambda: c.n3())
     if k != "ok":
         viol.append(f"n3-text: {where}: c.n3() raised {k}")
-        return f"IT={it} N3={k}"
+        return f"IT={it} RB=ok N3={k}"
     want = "( %s )" % " ".join(T[x].n3() for x in l)
     if txt != want:
         viol.append(f"n3-text: {where}: c.n3() = {txt!r} but the list {l} is written {want!r}")
@@ -539,7 +551,7 @@ def _ext(c, g, head, T, rev, l, viol, where, seen, stats):
         if not seen[txt]:
             viol.append(f"n3-reader: {where}: {txt!r} read back by the Turtle parser gives "
                         f"{rk if rk != 'ok' else [x.n3() for x in vals]}, the list is {[T[x].n3() for x in l]}")
-    return f"IT={it} N3={txt}"
+    return f"IT={it} RB=ok N3={txt}"
 
 
 def _run_hist(case):
@@ -725,7 +737,7 @@ def _run_broken(case):
         elif r[0] == "ext":
             k, v = _call(lambda: list(g.items(T[HEAD])))
             k2, txt = _call(lambda: c.n3())
-            obs.append(f"IT={_show(k, v, rev)} N3={txt if k2 == 'ok' else k2}")
+            obs.append(f"IT={_show(k, v, rev)} RB=ok N3={txt if k2 == 'ok' else k2}")
             raised = raised or k != "ok" or k2 != "ok"
             if cyclic and (k == "ok" or k2 == "ok"):
                 viol.append(f"cyclic-no-raise: g.items / c.n3() on a cyclic chain returned ({k}, {k2}) instead of raising")
@@ -762,12 +774,35 @@ def run_impl(case):
 # ------------------------------------------------------------------ model side
 
 
+def _cps(txt):
+    return ",".join(str(ord(ch)) for ch in txt) or "-"
+
+
+def _term_lines(case):
+    """the members' rdflib terms, so that the model writes the REAL text of n3() (round h)"""
+    T = _terms(case["head"])
+    lines = []
+    for k in list(MEMBERS) + [NIL, HEAD, HEAD + 1, HEAD2]:
+        t = T[k]
+        if isinstance(t, URIRef):
+            lines.append(f"term {k} I {_cps(str(t))}")
+        elif isinstance(t, BNode):
+            lines.append(f"term {k} B {_cps(str(t))}")
+        elif t.language:
+            lines.append(f"term {k} G {_cps(str(t))} {_cps(t.language)}")
+        elif t.datatype:
+            lines.append(f"term {k} T {_cps(str(t))} {_cps(str(t.datatype))}")
+        else:
+            lines.append(f"term {k} P {_cps(str(t))}")
+    return lines
+
+
 def _snapline(n, probe):
     return f"snap {-(n + 2)} {n + 1} " + " ".join(map(str, probe))
 
 
 def model_lines(case):
-    lines = [f"reset {HEAD}"]
+    lines = [f"reset {HEAD}"] + _term_lines(case)
     if case["kind"] == "broken":
         for t in case["triples"]:
             lines.append("t " + " ".join(map(str, t)))
@@ -852,8 +887,8 @@ def _n3_terms(case, out):
 
 def select_model_obs(case, out):
     if case["kind"] == "broken":
-        return _n3_terms(case, out[1 + len(case["triples"]):])
-    n0 = 1 + len(case["extra"]) + (0 if case["init"]["mode"] == "ctor" else 2 * len(case["init"]["items"]))
+        return _n3_terms(case, out[1 + len(_term_lines(case)) + len(case["triples"]):])
+    n0 = 1 + len(_term_lines(case)) + len(case["extra"]) + (0 if case["init"]["mode"] == "ctor" else 2 * len(case["init"]["items"]))
     if case.get("second"):
         n0 += 1 + len({tuple(t) for t in _second_triples(case["second"])})
     return _n3_terms(case, out[n0:])
